@@ -14,6 +14,7 @@ broadcast chan go;
 typedef struct { int f; } S;
 S s;
 int f1(int p) { return p + 1; }
+dynamic Dyn(const int dv);
 """
 
 MODEL = xmlgen.simple_model(
@@ -25,7 +26,9 @@ MODEL = xmlgen.simple_model(
                      '<location id="r0"><name>RA</name></location><location id="r1"><name>RB</name></location><init ref="r0"/>'
                      '<transition><source ref="r0"/><target ref="r1"/><label kind="guard">rx &gt;= ra</label><label kind="assignment">K0 = rb</label></transition></template>'
                      '<template><name>S1</name><parameter>const int[0,2] sa</parameter><declaration>int sk;</declaration><location id="s0"><name>SA</name></location>'
-                     '<init ref="s0"/></template>'),
+                     '<init ref="s0"/></template>'
+                     '<template><name>Dyn</name><parameter>const int dv</parameter><declaration>int dk;</declaration><location id="d0"><name>DA</name></location>'
+                     '<init ref="d0"/></template>'),
     system="P1 = P();\nP2 = P();\nsystem P1, P2, R, S1;")
 
 PRED = ["R(1,2).K0 > 0", "R(0,1).RA", "S1(2).sk == 0 && S1(0).SA", "forall (q : int[0,1]) R(q, 1).RB imply R(q, 0).K0 >= 0", "R(1,0).rx > 2",
@@ -116,6 +119,16 @@ def catalogue(rng, n):
             p(), rng.choice(["&&", "||"]), rng.randint(1, 9), p(), rng.choice(["&&", "||"]), rng.randint(2, 9), p()),
         "pr-until-const": lambda: "Pr[%s%s](%s U %s)" % (bd(), rn(), rng.choice(["true", "1", "b", "i", "false"]),
                                                        rng.choice(["1", "true", "0", "i", p()])),
+        "const-bounded": lambda: rng.choice(["Pr[%d<=10%s](<> %s)" % (rng.randint(0, 9), rn(), p()), "E[%d<=10%s](max: %s)" % (rng.randint(0, 9), rn(), e()),
+                                             "Pr[%d<=7]([] %s) >= Pr[%s](<> %s)" % (rng.randint(0, 9), p(), bd(), p()),
+                                             "Pr[%s]([] %s) >= Pr[%d<=20](<> %s)" % (bd(), p(), rng.randint(0, 9), p()),
+                                             "minE(%s)[%d<=10] : <> %s" % (e(), rng.randint(0, 9), p()), "maxE(%s)[%d<=10] {i} -> {x} : <> %s" % (e(), rng.randint(0, 9), p()),
+                                             "simulate [%d<=10%s] {%s}" % (rng.randint(0, 9), rn(), e()), "Pr[%d<=5](<> %s) >= 0.5" % (rng.randint(0, 9), p()),
+                                             "minPr[%d<=10] : <> %s" % (rng.randint(0, 9), p())]),
+        "dynamic": lambda: rng.choice(["Pr[%s](<> numOf(Dyn) > %d)" % (bd(), rng.randint(0, 3)), "E[%s%s](max: numOf(Dyn))" % (bd(), rn()),
+                                       "simulate [%s] {numOf(Dyn), %s}" % (bd(), e()), "Pr[%s]([] forall (dq : Dyn)(dq.dk >= 0))" % bd(),
+                                       "Pr[%s](<> exists (dq : Dyn)(dq.DA && numOf(Dyn) > 1))" % bd(), "E[%s](min: sum (dq : Dyn)(dq.dk))" % bd(),
+                                       "Pr[%s](<> numOf(Dyn) + i < 3) >= 0.5" % bd()]),
         "mitl-conj": lambda: "Pr ( (%s U[0,%d] %s) && %s )" % (p(), rng.randint(1, 9), p(), p()),
     }
     names = sorted(forms)
